@@ -129,21 +129,49 @@ func raceReports(dir string) (repo map[string]string, harnessOnly int, total int
 				continue
 			}
 			total++
-			// signature: first /repo/ function of each of the two stacks.
-			parts := regexp.MustCompile(`(?m)^(Previous |Read |Write |Goroutine )`).Split(blk, -1)
+			// Attribution. The two access stacks are the first two parts after the
+			// split. A report counts against the library when the innermost frame
+			// of either access is library code, or is runtime code (memmove on a
+			// buffer) reached through the library; when the innermost frames are
+			// harness code (a backend's own fields) it is a harness bug.
+			parts := regexp.MustCompile(`(?m)^(Previous |Read |Write |Atomic )`).Split(blk, -1)
 			var sigs []string
-			for _, p := range parts {
-				for _, m := range frame.FindAllStringSubmatch(p, -1) {
+			lib := false
+			for pi, p := range parts {
+				if pi == 0 || pi > 2 {
+					continue
+				}
+				if i := strings.Index(p, "\nGoroutine "); i >= 0 {
+					p = p[:i]
+				}
+				ms := frame.FindAllStringSubmatch(p, -1)
+				if len(ms) == 0 {
+					continue
+				}
+				top := ms[0]
+				viaRepo := ""
+				for _, m := range ms {
 					if strings.Contains(m[2], "/repo/") {
-						sigs = append(sigs, m[1])
+						viaRepo = m[1]
 						break
 					}
 				}
-				if len(sigs) == 2 {
-					break
+				switch {
+				case strings.Contains(top[2], "/repo/"):
+					lib = true
+					sigs = append(sigs, top[1])
+				case strings.Contains(top[2], "/src/runtime/") || strings.Contains(top[2], "/src/internal/"):
+					if viaRepo != "" {
+						lib = true
+						sigs = append(sigs, viaRepo)
+					}
+				default:
+					if viaRepo != "" {
+						sigs = append(sigs, "via:"+viaRepo)
+					}
 				}
 			}
-			if len(sigs) == 0 {
+			if !lib {
 				harnessOnly++
 				continue
 			}
@@ -243,7 +271,7 @@ func ParentMain(id string) int {
 			cmd.Env = append(cmd.Env, fmt.Sprintf("GOMAXPROCS=%d", procs))
 		}
 		if race {
-			cmd.Env = append(cmd.Env, "GORACE=halt_on_error=0 log_path="+filepath.Join(dir, fmt.Sprintf("race.%d", i)))
+			cmd.Env = append(cmd.Env, "GORACE=halt_on_error=0 exitcode=0 log_path="+filepath.Join(dir, fmt.Sprintf("race.%d", i)))
 		}
 		if err := cmd.Start(); err != nil {
 			fmt.Println("BROKEN-CHECK: start child:", err)
